@@ -13,5 +13,5 @@ def units(ctx):
         McUnit("reactive", "ReactiveObs", "", name="ReactiveObs:spec"),
         # forced schedules (TLC's counterexamples through callback gates and verif yield points) + free-running
         # writers/subscribers/unsubscribers on Variable, Set and Event; every execution validated by TLC
-        TraceUnit("reactive", "ReactiveObs", "reactobs", args=["-traces", 90], thorough_args=["-traces", 1500], sut="Reactive"),
+        TraceUnit("reactive", "ReactiveObs", "reactobs", args=["-traces", 90, "-controlled", 80], thorough_args=["-traces", 1500, "-controlled", 2000], sut="Reactive"),
     ]
